@@ -53,6 +53,23 @@ func (r *runner) check(c Case, record bool) (kind, msg string) {
 		}
 		return "", ""
 	}
+	if c.Mid != nil {
+		und, msg := checkMid(c.Mid, res.resp.Log)
+		if msg != "" {
+			return "mid-body-kill", msg + "\n    program:\n" + indent(c.Mid.Program(), "      ") + "\n    log tail: " + strings.Join(tail(res.resp.Log, 14), " | ")
+		}
+		if record {
+			if und != "" {
+				r.rec.Discard("mid-body-kill:" + und)
+			} else {
+				r.rec.Class("mid-body-kill:decided")
+				b, _ := json.Marshal(c)
+				r.rec.NonTrivial(string(b))
+				r.rec.Sample(map[string]any{"program": c.Mid.Program(), "log_tail": tail(res.resp.Log, 14)})
+			}
+		}
+		return "", ""
+	}
 	v, st := checkLog(c, res.resp.Log, r.kfLost)
 	if record {
 		r.record(c, res.resp.Log, st, v == nil)
@@ -138,7 +155,7 @@ var demoCrash = Case{Stmts: []Stmt{
 func TestC18(t *testing.T) {
 	rec := ev.New("C18")
 	defer Finish(t, rec)
-	rec.Rule("rapid state machine: histories of <= 40 actions driving ONE runtime chunk by chunk (create __gc tables / releasable userdata with finaliser variants plain, resurrect, spawn-marked-objects, error, CPU burn, re-mark-self; keep/drop/alias/link in 6 global slots; re-mark; forced collections from Lua and from Go; runtime.callcontext with cpu/memory/soft/flags/no limits, two levels, ending normally / by error / by CPU or memory limit / by killcontext / ctx:killnow; finally Runtime.Close). Oracle: invariants over the log of gc/release calls replayed against a reachability-and-epoch model (at most once per marking, never while reachable, exactly once by the end of the owning context or Close unless killed, reverse marking order among values finalised by the end sweep, release exactly once after the finaliser and also on kill, finaliser sees and is charged to its own context). Non-trivial: >= 1 finaliser ran before close (Go's GC really collected a value) AND >= 1 ran at a context end / Close, or a kill skipped >= 1 pending finaliser; distinct by action list.")
+	rec.Rule("rapid state machine: histories of <= 40 actions driving ONE runtime chunk by chunk (create __gc tables / releasable userdata with finaliser variants plain, resurrect, spawn-marked-objects, error, CPU burn, re-mark-self; keep/drop/alias/link in 6 global slots; re-mark; forced collections from Lua and from Go; runtime.callcontext with cpu/memory/soft/flags/no limits, two levels, ending normally / by error / by CPU or memory limit / by killcontext / ctx:killnow; finally Runtime.Close). Oracle: invariants over the log of gc/release calls replayed against a reachability-and-epoch model (at most once per marking, never while reachable, exactly once by the end of the owning context or Close unless killed, reverse marking order among values finalised by the end sweep, release exactly once after the finaliser and also on kill, finaliser sees and is charged to its own context). Non-trivial: >= 1 finaliser ran before close (Go's GC really collected a value) AND >= 1 ran at a context end / Close, or a kill skipped >= 1 pending finaliser; distinct by action list. Plus a mid-body-kill family (rapid): a CPU-limited context (optionally nested in a limited or flags-only one) creates 1..7 releasable userdata / finalisable values (some kept reachable) and one value whose finaliser burns more CPU than the limit, drops them and collects (Thread.CollectGarbage or plain runtime.GC) until the finaliser kills the context in the middle of its body; oracle: status killed, the killer cut off, no finaliser after the kill, every resource released exactly once by the time the context has been left; non-trivial: the kill happened during the body (otherwise the case is discarded as undecided).")
 	rec.Assume("no assertion depends on when or whether Go's collector runs; the classes finaliser:* report how often each timing occurred")
 	rec.Assume("re-marking a value that is still marked may keep its first marking position (reference implementation) or take the last (golua): both orders are accepted")
 	rec.Assume("marks made while an end-of-context/Close sweep runs create no obligation (manual 2.5.3: these marks have no effect)")
@@ -206,6 +223,15 @@ func TestC18(t *testing.T) {
 			return
 		}
 	}
+
+	// a context killed in the middle of its body by a collector-triggered
+	// finaliser while releases of the same context are pending
+	RunRapid(rec, "C18/mid-body-kill", rec.Pick(60, 600), 0, func(t *rapid.T) {
+		c := Case{Mid: genMid(t)}
+		if kind, msg := run.check(c, true); msg != "" {
+			FailCase(t, kind, c, "%s", msg)
+		}
+	})
 
 	RunRapid(rec, "C18/histories", rec.Pick(250, 3000), 0, func(t *rapid.T) {
 		c := genCase(t)
